@@ -164,7 +164,7 @@ Lemma step_submit_inv N hdr data w :
   Z.land hdr 243 <> 243 -> Inv w -> Inv (step N (Submit hdr data) w).
 Proof.
   intros Hok I. destruct I as [I1 I2 I3 I4 I5 I6 I7 I8 I9 I10 I11 I12].
-  destruct w as [[safe up down out retry outq inq errs needs] p acc qd got].
+  destruct w as [[safe up down out retry outq inq errs needs] p acc qd got lst xe se].
   cbn [w_h w_p w_accepted w_queued w_got h_safe h_up h_down h_out h_outq h_inq] in *.
   assert (Hn : nnb (hdr :: data) = true).
   { cbn [nnb]. apply negb_true_iff. apply Z.eqb_neq. exact Hok. }
@@ -184,7 +184,7 @@ Lemma step_peerqueue_inv N hdr data w :
   Z.land hdr 243 <> 243 -> Inv w -> Inv (step N (PeerQueue hdr data) w).
 Proof.
   intros Hok I. destruct I as [I1 I2 I3 I4 I5 I6 I7 I8 I9 I10 I11 I12].
-  destruct w as [h [on pu pd rx txq last] acc qd got].
+  destruct w as [h [on pu pd rx txq last] acc qd got lst xe se].
   cbn [w_h w_p w_accepted w_queued w_got p_on p_up p_down p_rx p_txq p_last] in *.
   assert (Hn : nnb (hdr :: data) = true).
   { cbn [nnb]. apply negb_true_iff. apply Z.eqb_neq. exact Hok. }
@@ -198,7 +198,7 @@ Qed.
 Lemma step_recv_inv N w : Inv w -> Inv (step N Recv w).
 Proof.
   intros I. destruct I as [I1 I2 I3 I4 I5 I6 I7 I8 I9 I10 I11 I12].
-  destruct w as [[safe up down out retry outq inq errs needs] p acc qd got].
+  destruct w as [[safe up down out retry outq inq errs needs] p acc qd got lst xe se].
   cbn [w_h w_p w_accepted w_queued w_got h_safe h_up h_down h_out h_outq h_inq] in *.
   unfold step, host_receive. cbn [w_h h_inq].
   destruct inq as [|x inq'].
@@ -224,8 +224,10 @@ Lemma host_recv_acked N u' up down oh ot retry outq inq errs needs dh dt :
   (mkHost true (negb up) (negb down) (match outq with Some f => f | None => [255] end) N None
           (inq ++ [dnorm (dh :: dt)]) errs needs, false).
 Proof.
-  unfold host_recv. cbn [stamp h_safe h_down h_up h_outq h_inq h_errs h_needs h_retry andb negb].
-  rewrite stamp_hdr_down_test, eqb_reflx, crtp_in_stamp. reflexivity.
+  unfold host_recv, host_flip, host_sent, host_loop.
+  cbn [stamp h_safe h_down h_up h_out h_outq h_inq h_errs h_needs h_retry andb negb].
+  rewrite stamp_hdr_down_test, eqb_reflx. cbn [h_safe h_down h_up h_out h_outq h_inq h_errs h_needs h_retry negb].
+  rewrite crtp_in_stamp. reflexivity.
 Qed.
 
 Lemma peer_next_cases adv fill u d rx txq last :
@@ -267,7 +269,7 @@ Proof. destruct b; reflexivity. Qed.
 Lemma step_tx_inv N o fill w : Inv w -> Inv (step N (Tx o fill) w).
 Proof.
   intros I. destruct I as [I1 I2 I3 I4 I5 I6 I7 I8 I9 I10 I11 I12].
-  destruct w as [[safe up down out retry outq inq errs needs] [on pu pd rx txq last] acc qd got].
+  destruct w as [[safe up down out retry outq inq errs needs] [on pu pd rx txq last] acc qd got lst xe se].
   cbn [w_h w_p w_accepted w_queued w_got h_safe h_up h_down h_out h_outq h_inq
        p_on p_up p_down p_rx p_txq p_last] in *.
   subst safe on. destruct out as [|oh ot]; [congruence|].
@@ -339,13 +341,63 @@ Proof.
       apply (D_after (Bool.eqb down pd) l txq' last txq fill). exact Hc.
 Qed.
 
+(* the invariant does not look at the stale answer nor at the two other error counters *)
+Lemma Inv_ext w w' :
+  w_h w' = w_h w -> w_p w' = w_p w -> w_accepted w' = w_accepted w -> w_queued w' = w_queued w ->
+  w_got w' = w_got w -> Inv w -> Inv w'.
+Proof.
+  intros E1 E2 E3 E4 E5 I. destruct I as [I1 I2 I3 I4 I5 I6 I7 I8 I9 I10 I11 I12].
+  constructor; rewrite ?E1, ?E2, ?E3, ?E4, ?E5; assumption.
+Qed.
+
+(* the dongle fails silently: radio.send_packet returns None; only the in-place stamping happens *)
+Lemma step_txnone_inv N w : Inv w -> Inv (step N (TxUsb false) w).
+Proof.
+  intros I. destruct I as [I1 I2 I3 I4 I5 I6 I7 I8 I9 I10 I11 I12].
+  destruct w as [[safe up down out retry outq inq errs needs] [on pu pd rx txq last] acc qd got lst xe se].
+  cbn [w_h w_p w_accepted w_queued w_got h_safe h_up h_down h_out h_outq h_inq
+       p_on p_up p_down p_rx p_txq p_last] in *.
+  subst safe on. destruct out as [|oh ot]; [congruence|].
+  unfold step, host_recv, host_flip, host_loop, host_sent. cbn [fst w_h w_p w_accepted w_queued w_got].
+  change (host_frame (mkHost true up down (oh :: ot) retry outq inq errs needs))
+    with (stamp up down (oh :: ot)).
+  constructor;
+    cbn [w_h w_p w_accepted w_queued w_got h_safe h_up h_down h_out h_outq h_inq
+         p_on p_up p_down p_rx p_txq p_last]; try assumption; try reflexivity.
+  - discriminate.
+  - now rewrite is_enable_stamp.
+  - now rewrite norm_stamp.
+Qed.
+
+Lemma step_submit_timeout_inv N hdr data w :
+  Z.land hdr 243 <> 243 -> Inv w -> Inv (step N (SubmitTimeout hdr data) w).
+Proof.
+  intros Hok I. unfold step, host_submit_timeout.
+  destruct (h_outq (w_h w)) as [f|] eqn:E.
+  - apply (Inv_ext w); try reflexivity. exact I.
+  - apply (Inv_ext (step N (Submit hdr data) w)); [| | | | |now apply step_submit_inv];
+      unfold step, host_submit; rewrite E; reflexivity.
+Qed.
+
+Lemma step_recvwait_inv N wt w : Inv w -> Inv (step N (RecvWait wt) w).
+Proof.
+  intros I. unfold step, host_receive_wait.
+  destruct (h_inq (w_h w)) as [|x t] eqn:E.
+  - apply (Inv_ext w); try reflexivity. exact I.
+  - apply (Inv_ext (step N Recv w)); [| | | | |now apply step_recv_inv];
+      unfold step, host_receive; rewrite E; reflexivity.
+Qed.
+
 Lemma step_inv N e w : ev_ok e -> Inv w -> Inv (step N e w).
 Proof.
-  destruct e as [hdr data|hdr data| |o fill]; intros Hok I.
+  destruct e as [hdr data|hdr data| |o fill|exc|hdr data|wt]; intros Hok I.
   - now apply step_submit_inv.
   - now apply step_peerqueue_inv.
   - now apply step_recv_inv.
   - now apply step_tx_inv.
+  - cbn [ev_ok] in Hok. subst exc. now apply step_txnone_inv.
+  - now apply step_submit_timeout_inv.
+  - now apply step_recvwait_inv.
 Qed.
 
 Lemma run_inv N evs : forall w, Forall ev_ok evs -> Inv w -> Inv (run N w evs).
@@ -519,7 +571,7 @@ Lemma tx_ok_progress N fill w : Inv w ->
                      /\ p_txq (w_p w) = [] /\ p_txq (w_p w1) = [] /\ l = 243 :: fill))).
 Proof.
   intros I. destruct I as [I1 I2 I3 I4 I5 I6 I7 I8 I9 I10 I11 I12].
-  destruct w as [[safe up down out retry outq inq errs needs] [on pu pd rx txq last] acc qd got].
+  destruct w as [[safe up down out retry outq inq errs needs] [on pu pd rx txq last] acc qd got lst xe se].
   cbn [w_h w_p w_accepted w_queued w_got h_safe h_up h_down h_out h_outq h_inq
        p_on p_up p_down p_rx p_txq p_last] in *.
   subst safe on. destruct out as [|oh ot]; [congruence|].
@@ -570,16 +622,23 @@ Qed.
 
 (* ------------------------------------------------------------------ link error *)
 
+Lemma host_loop_retry N a d h :
+  h_retry (fst (host_loop N (RAck a d) h)) = (if a then N else h_retry h - 1)
+  /\ h_errs (fst (host_loop N (RAck a d) h)) =
+     h_errs h + (if negb a && (h_retry h - 1 =? 0) then 1 else 0)
+  /\ snd (host_loop N (RAck a d) h) = negb a && (h_retry h - 1 =? 0).
+Proof.
+  unfold host_loop. destruct a; cbn [negb fst snd h_retry h_errs andb].
+  - repeat split. lia.
+  - destruct (h_retry h - 1 =? 0); repeat split; lia.
+Qed.
+
 Lemma host_recv_retry N a d h :
   h_retry (fst (host_recv N (RAck a d) h)) = (if a then N else h_retry h - 1)
   /\ h_errs (fst (host_recv N (RAck a d) h)) =
      h_errs h + (if negb a && (h_retry h - 1 =? 0) then 1 else 0)
   /\ snd (host_recv N (RAck a d) h) = negb a && (h_retry h - 1 =? 0).
-Proof.
-  unfold host_recv. destruct a; cbn [negb fst snd h_retry h_errs andb].
-  - repeat split. lia.
-  - destruct (h_retry h - 1 =? 0); repeat split; lia.
-Qed.
+Proof. unfold host_recv. apply (host_loop_retry N a d (host_flip (RAck a d) (host_sent h))). Qed.
 
 Lemma transmit_ack o f fill p : exists d, snd (transmit o f fill p) = RAck (is_ok o) d.
 Proof.
@@ -604,11 +663,14 @@ Lemma step_other_retry N e w :
   not_tx e ->
   h_retry (w_h (step N e w)) = h_retry (w_h w) /\ h_errs (w_h (step N e w)) = h_errs (w_h w).
 Proof.
-  intros He. destruct e as [hdr data|hdr data| |o fill]; cbn [step].
+  intros He. destruct e as [hdr data|hdr data| |o fill|exc|hdr data|wt]; cbn [step].
   - unfold host_submit. destruct (h_outq (w_h w)); split; reflexivity.
   - split; reflexivity.
   - unfold host_receive. destruct (h_inq (w_h w)); split; reflexivity.
   - destruct He.
+  - destruct exc; [destruct He|]. split; reflexivity.
+  - unfold host_submit_timeout, host_submit. destruct (h_outq (w_h w)); split; reflexivity.
+  - unfold host_receive_wait, host_receive. destruct (h_inq (w_h w)); split; reflexivity.
 Qed.
 
 Lemma boot_retry N p0 negs :
@@ -632,25 +694,38 @@ Lemma session_snoc N p0 negs evs e :
   session N p0 negs (evs ++ [e]) = step N e (session N p0 negs evs).
 Proof. unfold session. now rewrite run_app. Qed.
 
+Lemma tx_outcomes_snoc_other evs e : not_tx e -> tx_outcomes (evs ++ [e]) = tx_outcomes evs.
+Proof.
+  intros He. rewrite tx_outcomes_app.
+  destruct e as [hdr data|hdr data| |o fill|exc|hdr data|wt]; cbn [tx_outcomes flat_map];
+    try apply app_nil_r. destruct He.
+Qed.
+
+Lemma no_exc_not_tx e : no_exc e -> (forall o fill, e <> Tx o fill) -> not_tx e.
+Proof.
+  destruct e as [hdr data|hdr data| |o fill|exc|hdr data|wt]; cbn [no_exc not_tx]; intros H H1; try exact I.
+  - exfalso. now apply (H1 o fill).
+  - destruct exc; [destruct H|exact I].
+Qed.
+
 Lemma retry_invariant N p0 negs evs :
+  Forall no_exc evs ->
   h_retry (w_h (session N p0 negs evs)) = N - trailing_unacked (tx_outcomes evs).
 Proof.
-  induction evs as [|e evs IH] using rev_ind.
+  induction evs as [|e evs IH] using rev_ind; intros Hev.
   - unfold session. cbn [run fold_left]. rewrite (proj1 (boot_retry N p0 negs)).
     unfold trailing_unacked. cbn. lia.
-  - rewrite session_snoc, tx_outcomes_app.
-    destruct e as [hdr data|hdr data| |o fill].
-    + rewrite (proj1 (step_other_retry N (Submit hdr data) _ I)), IH. cbn [tx_outcomes flat_map].
-      now rewrite app_nil_r.
-    + rewrite (proj1 (step_other_retry N (PeerQueue hdr data) _ I)), IH. cbn [tx_outcomes flat_map].
-      now rewrite app_nil_r.
-    + rewrite (proj1 (step_other_retry N Recv _ I)), IH. cbn [tx_outcomes flat_map].
-      now rewrite app_nil_r.
-    + rewrite (proj1 (step_tx_retry N o fill _)), IH. cbn [tx_outcomes flat_map app].
-      rewrite trailing_snoc. destruct (is_ok o); lia.
+  - apply Forall_app in Hev as [Hevs He]. inversion He as [|? ? He1 _]; subst.
+    specialize (IH Hevs). rewrite session_snoc.
+    destruct e as [hdr data|hdr data| |o fill|exc|hdr data|wt];
+      try (rewrite (proj1 (step_other_retry N _ _ (no_exc_not_tx _ He1 ltac:(intros; discriminate)))), IH,
+             tx_outcomes_snoc_other by (apply no_exc_not_tx; [exact He1|intros; discriminate]); reflexivity).
+    rewrite (proj1 (step_tx_retry N o fill _)), IH, tx_outcomes_app. cbn [tx_outcomes flat_map app].
+    rewrite trailing_snoc. destruct (is_ok o); lia.
 Qed.
 
 Lemma link_error_exact N p0 negs evs :
+  Forall no_exc evs ->
   (forall o fill,
      h_errs (w_h (session N p0 negs (evs ++ [Tx o fill]))) =
      h_errs (w_h (session N p0 negs evs)) +
@@ -659,8 +734,8 @@ Lemma link_error_exact N p0 negs evs :
         h_errs (w_h (session N p0 negs (evs ++ [e]))) = h_errs (w_h (session N p0 negs evs)))
   /\ h_errs (w_h (session N p0 negs [])) = 0.
 Proof.
-  split; [|split].
-  - intros o fill. rewrite session_snoc, (proj2 (step_tx_retry N o fill _)), retry_invariant.
+  intros Hev. split; [|split].
+  - intros o fill. rewrite session_snoc, (proj2 (step_tx_retry N o fill _)), retry_invariant by exact Hev.
     rewrite trailing_snoc. f_equal. destruct (is_ok o); cbn [negb andb]; [reflexivity|].
     destruct (N - trailing_unacked (tx_outcomes evs) - 1 =? 0) eqn:E1;
       destruct (1 + trailing_unacked (tx_outcomes evs) =? N) eqn:E2; try reflexivity; lia.
@@ -670,16 +745,34 @@ Qed.
 
 (* ------------------------------------------------------------------ safelink only if confirmed *)
 
+Lemma host_loop_mode N r h :
+  h_safe (fst (host_loop N r h)) = h_safe h /\ h_needs (fst (host_loop N r h)) = h_needs h.
+Proof. destruct r as [|a d]; [|destruct a]; split; reflexivity. Qed.
+
+Lemma host_flip_mode r h : h_safe (host_flip r h) = h_safe h /\ h_needs (host_flip r h) = h_needs h.
+Proof. destruct r as [|a d]; split; reflexivity. Qed.
+
+Lemma host_recv_mode N r h :
+  h_safe (fst (host_recv N r h)) = h_safe h /\ h_needs (fst (host_recv N r h)) = h_needs h.
+Proof.
+  unfold host_recv. destruct (host_loop_mode N r (host_flip r (host_sent h))) as [-> ->].
+  destruct (host_flip_mode r (host_sent h)) as [-> ->]. split; reflexivity.
+Qed.
+
 Lemma step_mode N e w :
   h_safe (w_h (step N e w)) = h_safe (w_h w) /\ h_needs (w_h (step N e w)) = h_needs (w_h w).
 Proof.
-  destruct e as [hdr data|hdr data| |o fill]; cbn [step].
+  destruct e as [hdr data|hdr data| |o fill|exc|hdr data|wt]; cbn [step].
   - unfold host_submit. destruct (h_outq (w_h w)); split; reflexivity.
   - split; reflexivity.
   - unfold host_receive. destruct (h_inq (w_h w)); split; reflexivity.
-  - destruct (transmit o (host_frame (w_h w)) fill (w_p w)) as [p1 r]. cbn [w_h].
-    unfold host_recv. destruct r as [|a d]; [split; reflexivity|].
-    destruct (negb a); split; reflexivity.
+  - destruct (transmit o (host_frame (w_h w)) fill (w_p w)) as [p1 r]. cbn [w_h]. apply host_recv_mode.
+  - destruct exc; cbn [w_h].
+    + unfold host_exc. destruct (host_loop_mode N (w_last w) (host_sent (w_h w))) as [-> ->].
+      split; reflexivity.
+    + apply host_recv_mode.
+  - unfold host_submit_timeout, host_submit. destruct (h_outq (w_h w)); split; reflexivity.
+  - unfold host_receive_wait, host_receive. destruct (h_inq (w_h w)); split; reflexivity.
 Qed.
 
 Lemma run_mode N evs : forall w,
@@ -751,21 +844,47 @@ Qed.
 Definition out_ne (w : world) : Prop :=
   h_out (w_h w) <> [] /\ forall f, h_outq (w_h w) = Some f -> f <> [].
 
+Definition hout_ne (h : host) : Prop := h_out h <> [] /\ forall f, h_outq h = Some f -> f <> [].
+
+Lemma host_sent_ne h : hout_ne h -> hout_ne (host_sent h).
+Proof.
+  intros [H1 H2]. split; [|exact H2]. cbn [host_sent h_out]. unfold host_frame.
+  destruct (h_safe h); [now apply stamp_nonempty|assumption].
+Qed.
+
+Lemma host_flip_ne r h : hout_ne h -> hout_ne (host_flip r h).
+Proof. intros H. destruct r as [|a d]; exact H. Qed.
+
+Lemma host_loop_ne N r h : hout_ne h -> hout_ne (fst (host_loop N r h)).
+Proof.
+  intros [H1 H2]. destruct r as [|a d]; [split; assumption|]. unfold host_loop.
+  destruct (negb a); cbn [fst]; split; cbn [h_out h_outq]; try assumption; try discriminate.
+  destruct (h_outq h) as [f|] eqn:E; [now apply H2|discriminate].
+Qed.
+
+Lemma host_submit_ne hdr data h : hout_ne h -> hout_ne (fst (host_submit (hdr :: data) h)).
+Proof.
+  intros [H1 H2]. unfold host_submit. destruct (h_outq h) as [f0|] eqn:E; cbn [fst].
+  - split; [assumption|]. rewrite E. exact H2.
+  - split; [assumption|]. cbn [h_outq]. intros g Hg. injection Hg as <-. discriminate.
+Qed.
+
 Lemma step_out_ne N e w : out_ne w -> out_ne (step N e w).
 Proof.
-  intros [H1 H2]. destruct e as [hdr data|hdr data| |o fill]; cbn [step].
-  - unfold host_submit. destruct (h_outq (w_h w)) as [f0|] eqn:E; unfold out_ne; cbn [w_h h_out h_outq].
-    + split; [assumption|]. rewrite E. exact H2.
-    + split; [assumption|]. intros g Hg. injection Hg as <-. discriminate.
-  - split; assumption.
-  - unfold host_receive. destruct (h_inq (w_h w)); split; assumption.
+  unfold out_ne. fold (hout_ne (w_h w)). intros H.
+  change (hout_ne (w_h (step N e w))).
+  destruct e as [hdr data|hdr data| |o fill|exc|hdr data|wt]; cbn [step].
+  - pose proof (host_submit_ne hdr data _ H) as H'. destruct (host_submit (hdr :: data) (w_h w)). exact H'.
+  - exact H.
+  - unfold host_receive. destruct (h_inq (w_h w)); exact H.
   - destruct (transmit o (host_frame (w_h w)) fill (w_p w)) as [p1 r]. cbn [w_h].
-    assert (Hf : host_frame (w_h w) <> []).
-    { unfold host_frame. destruct (h_safe (w_h w)); [now apply stamp_nonempty|assumption]. }
-    unfold host_recv. destruct r as [|a d]; cbn [fst].
-    + split; [exact Hf|exact H2].
-    + destruct (negb a); cbn [fst h_out h_outq]; split; try assumption; try discriminate.
-      destruct (h_outq (w_h w)) as [f|] eqn:E; [now apply H2|discriminate].
+    unfold host_recv. now apply host_loop_ne, host_flip_ne, host_sent_ne.
+  - destruct exc; cbn [w_h].
+    + unfold host_exc. now apply host_loop_ne, host_sent_ne.
+    + unfold host_recv. now apply host_loop_ne, host_flip_ne, host_sent_ne.
+  - unfold host_submit_timeout. destruct (h_outq (w_h w)) eqn:E; cbn [w_h]; [exact H|].
+    now apply host_submit_ne.
+  - unfold host_receive_wait, host_receive. destruct (h_inq (w_h w)); exact H.
 Qed.
 
 Lemma run_out_ne N evs : forall w, out_ne w -> out_ne (run N w evs).
@@ -823,4 +942,254 @@ Proof.
   apply boot_loop_spec in E as (_ & _ & E3 & _). cbn [w_h w_p].
   destruct ok; cbn [host_after_boot h_safe host0]; [intros _|discriminate].
   rewrite (E3 eq_refl). repeat split.
+Qed.
+
+(* ------------------------------------------------------------------ USB failures *)
+
+(* radio.send_packet returns None (usb.USBError swallowed inside Crazyradio.send_packet): nothing is counted,
+   nothing is reported, whatever the number of such iterations — a dead dongle is never reported *)
+Lemma usb_none_silent N w :
+  let w1 := step N (TxUsb false) w in
+  w_h w1 = host_sent (w_h w) /\ w_p w1 = w_p w /\ w_last w1 = RNone
+  /\ w_xerrs w1 = w_xerrs w /\ w_serrs w1 = w_serrs w.
+Proof. repeat split. Qed.
+
+(* radio.send_packet raises: one 'Error communicating with crazy radio' report, nothing reaches the peer, and
+   the body of the loop runs once more on the PREVIOUS answer *)
+Lemma usb_exception_step N w :
+  let w1 := step N (TxUsb true) w in
+  let h := w_h w in let h1 := w_h w1 in
+  w_xerrs w1 = w_xerrs w + 1 /\ w_p w1 = w_p w /\ w_last w1 = w_last w
+  /\ h_up h1 = h_up h /\ h_down h1 = h_down h
+  /\ match w_last w with
+     | RNone => h1 = host_sent h
+     | RAck false _ =>
+         (* the previous loss is counted a second time; 'Too many packets lost' may fire on it *)
+         h_retry h1 = h_retry h - 1 /\ h_errs h1 = h_errs h + (if h_retry h - 1 =? 0 then 1 else 0)
+         /\ h_inq h1 = h_inq h /\ h_outq h1 = h_outq h /\ h_out h1 = host_frame h
+     | RAck true d =>
+         (* the previous payload is queued a second time and the frame that could not be sent is replaced by
+            the next packet although the sequence bit did not advance *)
+         h_retry h1 = N /\ h_errs h1 = h_errs h
+         /\ h_inq h1 = h_inq h ++ match d with [] => [] | d0 :: rest => [crtp_in d0 rest] end
+         /\ h_out h1 = match h_outq h with Some f => f | None => [255] end
+         /\ h_outq h1 = None
+     end.
+Proof.
+  cbv zeta. unfold step. cbn [w_h w_p w_last w_xerrs]. unfold host_exc.
+  destruct (w_last w) as [|a d]; [repeat split|].
+  destruct a; cbn [host_loop negb fst h_up h_down h_retry h_errs h_inq h_out h_outq host_sent].
+  - repeat split. destruct d; [now rewrite app_nil_r|reflexivity].
+  - repeat split. destruct (h_retry (w_h w) - 1 =? 0); lia.
+Qed.
+
+(* ------------------------------------------------------------------ RadioDriver API around the thread *)
+
+Lemma send_timeout_spec N hdr data w :
+  let w1 := step N (SubmitTimeout hdr data) w in
+  match h_outq (w_h w) with
+  | Some _ => w_serrs w1 = w_serrs w + 1 /\ w_h w1 = w_h w /\ w_accepted w1 = w_accepted w
+  | None => w_serrs w1 = w_serrs w /\ w1 = step N (Submit hdr data) w
+  end.
+Proof.
+  cbv zeta. unfold step, host_submit_timeout, host_submit.
+  destruct (h_outq (w_h w)) eqn:E; cbn [fst]; repeat split.
+Qed.
+
+Lemma serrs_only_at_timeout N e w :
+  (forall hdr data, e <> SubmitTimeout hdr data) -> w_serrs (step N e w) = w_serrs w.
+Proof.
+  intros He. destruct e as [hdr data|hdr data| |o fill|exc|hdr data|wt]; cbn [step].
+  - destruct (host_submit (hdr :: data) (w_h w)). reflexivity.
+  - reflexivity.
+  - destruct (host_receive (w_h w)). reflexivity.
+  - destruct (transmit o (host_frame (w_h w)) fill (w_p w)). reflexivity.
+  - destruct exc; reflexivity.
+  - exfalso. now apply (He hdr data).
+  - destruct (host_receive_wait wt (w_h w)) as [[? ?] ?]. reflexivity.
+Qed.
+
+Lemma receive_wait_spec wait h :
+  match h_inq h with
+  | x :: t => host_receive_wait wait h = (fst (host_receive h), Some x, false)
+              /\ h_inq (fst (host_receive h)) = t
+  | [] => host_receive_wait wait h = (h, None, wait <? 0)
+  end.
+Proof.
+  unfold host_receive_wait, host_receive. destruct (h_inq h) as [|x t] eqn:E; [reflexivity|].
+  cbn [fst h_inq]. split; reflexivity.
+Qed.
+
+(* ------------------------------------------------------------------ dongle answer parsing, all status bytes *)
+
+Fixpoint zrange (a : Z) (n : nat) : list Z :=
+  match n with O => [] | S k => a :: zrange (a + 1) k end.
+
+Lemma zrange_In a n z : In z (zrange a n) <-> a <= z < a + Z.of_nat n.
+Proof.
+  revert a; induction n as [|n IH]; intros a; cbn [zrange In].
+  - lia.
+  - rewrite IH. lia.
+Qed.
+
+Definition status_ok (s : Z) : bool :=
+  Bool.eqb (negb (Z.land s 1 =? 0)) (Z.odd s) && Bool.eqb (negb (Z.land s 2 =? 0)) (Z.odd (s / 2))
+  && (Z.shiftr s 4 =? s / 16) && (0 <=? s / 16) && (s / 16 <=? 15).
+
+Lemma status_all_ok : forallb status_ok (zrange 0 (Z.to_nat 256)) = true.
+Proof. vm_compute. reflexivity. Qed.
+
+Lemma parse_ack_all_status arc s payload :
+  0 <= s < 256 ->
+  parse_ack arc (Some (s :: payload)) =
+    Some (if s =? 0 then mkAck false false arc []
+          else mkAck (Z.odd s) (Z.odd (s / 2)) (s / 16) payload)
+  /\ 0 <= s / 16 <= 15
+  /\ radio_ack_of_usb (Some (s :: payload)) = RAck (Z.odd s) (if s =? 0 then [] else payload).
+Proof.
+  intros Hs. assert (H : status_ok s = true).
+  { pose proof status_all_ok as H. rewrite forallb_forall in H. apply H, zrange_In.
+    rewrite Z2Nat.id; lia. }
+  unfold status_ok in H.
+  apply andb_true_iff in H as [H K5]. apply andb_true_iff in H as [H K4].
+  apply andb_true_iff in H as [H K3]. apply andb_true_iff in H as [K1 K2].
+  apply eqb_prop in K1. apply eqb_prop in K2. apply Z.eqb_eq in K3.
+  unfold radio_ack_of_usb, parse_ack. destruct (s =? 0) eqn:E.
+  - apply Z.eqb_eq in E. subst s. repeat split; try reflexivity; lia.
+  - rewrite K1, K2, K3. cbn [resp_of_ack a_ack a_data]. repeat split; lia.
+Qed.
+
+(* ------------------------------------------------------------------ refutations: what is NOT guaranteed *)
+
+Definition rf_p0 : peer := mkPeer false false true [] [[80; 9]] None.
+
+(* without a confirmed negotiation (here: never answered) the same loop duplicates an uplink packet and
+   loses a downlink packet on ONE lost acknowledgement *)
+Lemma without_confirmation_refuted :
+  exists N p0 negs evs,
+    peer_ok0 p0 /\ Forall ev_ok evs /\ ~ confirmed N p0 negs /\
+    let w := session N p0 negs evs in
+    (* one packet accepted, delivered twice *)
+    map norm (w_accepted w) = [[48; 1; 2]]
+    /\ map norm (filter nnb (p_rx (w_p w))) = [[48; 1; 2]; [48; 1; 2]] /\ up_pending w = []
+    (* two packets queued, the second one taken from the peer's queue but never handed to the application *)
+    /\ map dnorm (w_queued w) = [[92; 9]; [92; 7]]
+    /\ filter nnb (w_got w ++ h_inq (w_h w)) = [[92; 9]] /\ down_pending w = [].
+Proof.
+  exists 3, rf_p0, [],
+    [Submit 60 [1; 2]; Tx Ok []; PeerQueue 92 [7]; Tx AckLost []; Tx Ok [1]].
+  split; [split; [reflexivity|repeat constructor]|].
+  split; [repeat constructor; cbn; discriminate|].
+  split; [unfold confirmed; vm_compute; intros H; discriminate H|].
+  vm_compute. repeat split.
+Qed.
+
+(* one exception of radio.send_packet (already reported as a link error) after which the stale answer is
+   processed again: the accepted packet [60;1] never reaches the peer, the queued packet [92;7] comes out of
+   receive_packet twice — even after the link has fully recovered (three acknowledged transmissions) *)
+Lemma usb_exception_breaks_exactly_once :
+  exists N p0 negs evs,
+    peer_ok0 p0 /\ confirmed N p0 negs /\
+    let w := session N p0 negs evs in
+    w_xerrs w = 1 /\ h_errs (w_h w) = 0
+    /\ w_accepted w = [[60; 1]] /\ filter nnb (p_rx (w_p w)) = [] /\ up_pending w = []
+    /\ w_queued w = [[92; 7]] /\ filter nnb (w_got w) = [[92; 7]; [92; 7]].
+Proof.
+  exists 3, (mkPeer false false true [] [] None), [NOk],
+    [PeerQueue 92 [7]; Submit 60 [1]; Tx Ok []; TxUsb true; Tx Ok []; Tx Ok []; Tx Ok []; Recv; Recv; Recv; Recv; Recv].
+  split; [split; [reflexivity|constructor]|]. split; [reflexivity|].
+  vm_compute. repeat split.
+Qed.
+
+(* ... and 'Too many packets lost' after ONE unacknowledged transmission although N = 2 *)
+Lemma usb_exception_miscounts :
+  exists p0 negs evs,
+    confirmed 2 p0 negs /\ tx_outcomes evs = [UpLost] /\
+    h_errs (w_h (session 2 p0 negs evs)) = 1 /\ w_xerrs (session 2 p0 negs evs) = 1.
+Proof.
+  exists (mkPeer false false true [] [] None), [NOk], [Tx UpLost []; TxUsb true].
+  repeat split.
+Qed.
+
+(* RadioDriver.close() throws away what send_packet accepted but the loop had not taken yet *)
+Lemma close_discards_accepted :
+  exists N p0 negs evs,
+    peer_ok0 p0 /\ Forall ev_ok evs /\ confirmed N p0 negs /\
+    let w := close_world (session N p0 negs evs) in
+    w_accepted w = [[60; 1]; [77; 2]] /\ filter nnb (p_rx (w_p w)) = [] /\ h_outq (w_h w) = None.
+Proof.
+  exists 3, (mkPeer false false true [] [] None), [NOk], [Submit 60 [1]; Tx UpLost []; Tx Ok []; Submit 77 [2]].
+  split; [split; [reflexivity|constructor]|].
+  split; [repeat constructor; cbn; discriminate|]. split; [reflexivity|].
+  vm_compute. repeat split.
+Qed.
+
+Lemma close_keeps_received w :
+  h_inq (w_h (close_world w)) = h_inq (w_h w) /\ w_got (close_world w) = w_got w
+  /\ w_p (close_world w) = w_p w /\ h_outq (w_h (close_world w)) = None.
+Proof. repeat split. Qed.
+
+(* ------------------------------------------------------------------ when can the sending thread report? *)
+
+Lemma step_outq_cases N e w :
+  h_outq (w_h (step N e w)) = None
+  \/ (h_outq (w_h (step N e w)) = h_outq (w_h w) /\ w_accepted (step N e w) = w_accepted w /\ is_tx_ok e = false)
+  \/ (h_outq (w_h w) = None /\ exists p, w_accepted (step N e w) = w_accepted w ++ [p]).
+Proof.
+  destruct e as [hdr data|hdr data| |o fill|exc|hdr data|wt]; cbn [step is_tx_ok].
+  - unfold host_submit. destruct (h_outq (w_h w)) eqn:E; cbn [w_h w_accepted].
+    + right. left. repeat split. exact E.
+    + right. right. split; [reflexivity|]. now exists (hdr :: data).
+  - right. left. repeat split.
+  - unfold host_receive. destruct (h_inq (w_h w)); right; left; repeat split.
+  - destruct o; cbn [transmit].
+    + destruct (peer_recv (host_frame (w_h w)) fill (w_p w)) as [p1 r]. left. reflexivity.
+    + right. left. repeat split.
+    + right. left. repeat split.
+  - destruct exc; cbn [w_h w_accepted].
+    + unfold host_exc. destruct (w_last w) as [|a d]; [right; left; repeat split|].
+      destruct a; [left; reflexivity|right; left; repeat split].
+    + right. left. repeat split.
+  - unfold host_submit_timeout, host_submit. destruct (h_outq (w_h w)) eqn:E; cbn [w_h w_accepted fst].
+    + right. left. repeat split. exact E.
+    + right. right. split; [reflexivity|]. now exists (hdr :: data).
+  - unfold host_receive_wait, host_receive. destruct (h_inq (w_h w)); right; left; repeat split.
+Qed.
+
+Lemma boot_outq N p0 negs : h_outq (w_h (boot negs (world0 N p0))) = None.
+Proof.
+  unfold boot, world0. cbn [w_p w_h]. destruct (boot_loop 10 negs p0) as [[p1 ok] rs].
+  cbn [w_h]. destruct ok; reflexivity.
+Qed.
+
+(* out_queue full => the packet in it was accepted at some event after which no transmission was acknowledged *)
+Lemma full_queue_no_ack N p0 negs evs :
+  h_outq (w_h (session N p0 negs evs)) <> None ->
+  exists evs1 e evs2 p,
+    evs = evs1 ++ e :: evs2
+    /\ w_accepted (session N p0 negs (evs1 ++ [e])) = w_accepted (session N p0 negs evs1) ++ [p]
+    /\ Forall (fun e => is_tx_ok e = false) evs2.
+Proof.
+  induction evs as [|e evs IH] using rev_ind; intros Hq.
+  - exfalso. apply Hq. unfold session. cbn [run fold_left]. apply boot_outq.
+  - rewrite session_snoc in Hq.
+    destruct (step_outq_cases N e (session N p0 negs evs)) as [A|[(B1 & B2 & B3)|(C1 & p & C2)]].
+    + congruence.
+    + rewrite B1 in Hq. destruct (IH Hq) as (evs1 & e1 & evs2 & p & -> & Ha & Hf).
+      exists evs1, e1, (evs2 ++ [e]), p. split; [now rewrite <- app_assoc|]. split; [exact Ha|].
+      apply Forall_app. split; [exact Hf|]. constructor; [exact B3|constructor].
+    + exists evs, e, [], p. split; [reflexivity|]. split; [|constructor].
+      rewrite session_snoc. exact C2.
+Qed.
+
+Lemma send_timeout_only_without_ack N p0 negs evs hdr data :
+  w_serrs (session N p0 negs (evs ++ [SubmitTimeout hdr data])) <> w_serrs (session N p0 negs evs) ->
+  exists evs1 e evs2 p,
+    evs = evs1 ++ e :: evs2
+    /\ w_accepted (session N p0 negs (evs1 ++ [e])) = w_accepted (session N p0 negs evs1) ++ [p]
+    /\ Forall (fun e => is_tx_ok e = false) evs2.
+Proof.
+  intros H. apply full_queue_no_ack. intros Hq. apply H. rewrite session_snoc.
+  pose proof (send_timeout_spec N hdr data (session N p0 negs evs)) as S. cbv zeta in S.
+  rewrite Hq in S. apply S.
 Qed.
